@@ -238,11 +238,21 @@ def c10(tier, seed, replay=None):
         mutants = [("FirstMutable", dict(N=4, MaxAr=2, KindMode="node")), ("MutAddNoneAliases", dict(N=4, MaxAr=2, KindMode="node"))]
         sets = [dict(N=4, MaxAr=2, WithConst=True, KindMode="edge"), dict(N=4, MaxAr=3, KindMode="node"),
                 dict(N=3, MaxAr=3, WithConst=True, KindMode="edge"), dict(N=6, Family="share")]
-    return _run("C10", tier, seed, models, mutants, sets, decorate, "", ASSUME + [
-        "inputs, captured constants and cotangents are passed as writeable=False arrays and snapshotted; results of earlier calls are "
-        "snapshotted and compared after every later call"],
+    t0 = time.time()
+    assume = ASSUME + [
+        "inputs, captured constants and cotangents are passed as writeable=False arrays and snapshotted (every fourth case: writeable arrays, "
+        "snapshots only - a read-only flag can hide an in-place write behind NumPy's own copy); results of earlier calls are "
+        "snapshotted and compared after every later call"]
+    v1, cov = _run("C10", tier, seed, models, mutants, sets, decorate, "", assume,
         "a case is (graph, session); sessions are TLC-enumerated sequences of 2..3 calls of one VJP function with cotangents from {1,3} "
-        "and an optional injected rule failure per call; distinct_nontrivial counts distinct (graph, session, builtin?) with >= 3 nodes")
+        "and an optional injected rule failure per call; distinct_nontrivial counts distinct (graph, session, builtin?) with >= 3 nodes", write=False)
+    # the same property inside the rules of the built-in primitives: one VJP function applied to the whole cotangent basis and again
+    from checks import rules
+    v2, cov2 = rules.c10_rules(tier, seed)
+    rules.merge(v1, cov, v2, cov2, "vjp_functions_of_builtin_primitives_reapplied")
+    rc = v1.finish()
+    vlib.write_evidence("C10", tier, seed, "model_checking", cov, assume + rules.ASSUME, time.time() - t0, len(v1.violations))
+    return rc
 
 
 def suite_traces(verdict):
